@@ -1,2 +1,174 @@
-(* C01 statements; proofs in Proofs/. *)
-From BaoV Require Import Model.Fsm Spec.EncSpec.
+(* C01 statements; proofs in Proofs/Dec*.v. *)
+From BaoV Require Import Model.Fsm Spec.EncSpec Spec.HashAssm Spec.PTree.
+From Coq Require Import Arith.
+From BaoV Require Import Proofs.DecLoop Proofs.DecHash Proofs.DecForest Proofs.DecConst Proofs.DecRanges Proofs.DecTheorems Proofs.DecWitness.
+
+(* ---- Part 1: the loops, and the decoders as folds over the plan list ---- *)
+
+(* an iterator that ends within n < 2^64 steps is unrolled by run_iter *)
+Theorem C01_run_iter_cons : forall (St A : Type) (next : St -> option (A * St)) n st x st',
+  next st = Some (x, st') -> ends_within next st n -> (n < 2 ^ LOOP_DEPTH)%nat ->
+  run_iter next st = x :: run_iter next st' /\ exists n', n = S n' /\ ends_within next st' n'.
+Proof. exact @run_iter_cons. Qed.
+Print Assumptions C01_run_iter_cons.
+
+Theorem C01_run_iter_nil : forall (St A : Type) (next : St -> option (A * St)) st,
+  next st = None -> run_iter next st = [].
+Proof. exact @run_iter_nil. Qed.
+Print Assumptions C01_run_iter_nil.
+
+Theorem C01_loop_bound : forall n : nat, (N.of_nat n < 2 ^ 64)%N -> (n < 2 ^ LOOP_DEPTH)%nat.
+Proof. exact loop_bound_of_N. Qed.
+Print Assumptions C01_loop_bound.
+
+(* dec_run is dec_items_sync over the plan the iterator yields (the iterator does not see the stream) *)
+Theorem C01_dec_run_refines : forall HO n it stk enc,
+  ends_within response_next it n -> (N.of_nat n < 2 ^ 64)%N ->
+  let r := dec_items_sync HO (run_iter response_next it) stk enc in
+  dec_run HO (mkD HO it stk enc) =
+  (r_items HO r, r_outcome HO r,
+   mkD HO (iter_skip response_next (consumed HO r) it) (r_stack HO r) (r_enc HO r)).
+Proof. exact dec_run_refines. Qed.
+Print Assumptions C01_dec_run_refines.
+
+Theorem C01_rd_run_refines : forall HO n it stk enc root,
+  ends_within response_next it n -> (N.of_nat n < 2 ^ 64)%N ->
+  let r := dec_items_fsm HO (run_iter response_next it) stk enc in
+  rd_run HO (mkR HO it stk enc root) =
+  (r_items HO r, r_outcome HO r,
+   mkR HO (iter_skip response_next (consumed HO r) it) (r_stack HO r) (r_enc HO r) root).
+Proof. exact rd_run_refines. Qed.
+Print Assumptions C01_rd_run_refines.
+
+(* with a plan iterator that yields plan_of T, dec_run / rd_run are the plan decoders: every theorem
+   below and in C09 about dec_items_sync / dec_items_fsm transfers to them *)
+Theorem C01_sync_run_as_plan : forall HO (T : ptree HO) (stream : bytes HO) it n ys o st',
+  run_iter response_next it = plan_of HO T ->
+  ends_within response_next it n -> (N.of_nat n < 2 ^ 64)%N ->
+  dec_run HO (mkD HO it [cv_of HO T] stream) = (ys, o, st') ->
+  let r := dec_items_sync HO (plan_of HO T) [cv_of HO T] stream in
+  ys = r_items HO r /\ o = r_outcome HO r /\ d_enc HO st' = r_enc HO r /\ d_stack HO st' = r_stack HO r.
+Proof. exact sync_run_as_plan. Qed.
+Print Assumptions C01_sync_run_as_plan.
+
+Theorem C01_fsm_run_as_plan : forall HO (T : ptree HO) (stream : bytes HO) it n root ys o st',
+  run_iter response_next it = plan_of HO T ->
+  ends_within response_next it n -> (N.of_nat n < 2 ^ 64)%N ->
+  rd_run HO (mkR HO it [cv_of HO T] stream root) = (ys, o, st') ->
+  let r := dec_items_fsm HO (plan_of HO T) [cv_of HO T] stream in
+  ys = r_items HO r /\ o = r_outcome HO r /\ Fsm.r_enc HO st' = r_enc HO r /\
+  Fsm.r_stack HO st' = r_stack HO r /\ r_root HO st' = root.
+Proof. exact fsm_run_as_plan. Qed.
+Print Assumptions C01_fsm_run_as_plan.
+
+(* ---- Part 2(a): soundness, for every stream ---- *)
+Theorem C01_sync_sound : forall HO, hash_ok HO ->
+  forall (T : ptree HO) (stream : bytes HO), consistent HO T -> leaves_ok HO T ->
+  let r := dec_items_sync HO (plan_of HO T) [cv_of HO T] stream in
+  let ys := r_items HO r in let o := r_outcome HO r in
+  is_prefix ys (items_of HO T) /\
+  (o = Finished -> ys = items_of HO T /\ stream = flat_items HO (items_of HO T) ++ r_enc HO r) /\
+  (forall e, o = Failed e ->
+     ~ is_prefix (flat_items HO (firstn (length ys + 1) (items_of HO T))) stream) /\
+  o <> Panicked /\ o <> OutOfFuel.
+Proof. exact sync_sound. Qed.
+Print Assumptions C01_sync_sound.
+
+Theorem C01_fsm_sound : forall HO, hash_ok HO ->
+  forall (T : ptree HO) (stream : bytes HO), consistent HO T -> leaves_ok HO T ->
+  let r := dec_items_fsm HO (plan_of HO T) [cv_of HO T] stream in
+  let ys := r_items HO r in let o := r_outcome HO r in
+  is_prefix ys (items_of HO T) /\
+  (o = Finished -> ys = items_of HO T /\ stream = flat_items HO (items_of HO T) ++ r_enc HO r) /\
+  (forall e, o = Failed e ->
+     ~ is_prefix (flat_items HO (firstn (length ys + 1) (items_of HO T))) stream) /\
+  o <> Panicked /\ o <> OutOfFuel.
+Proof. exact fsm_sound. Qed.
+Print Assumptions C01_fsm_sound.
+
+(* the same for the state machines dec_run / rd_run, whenever the plan iterator yields plan_of T *)
+Theorem C01_sync_sound_run : forall HO, hash_ok HO ->
+  forall (T : ptree HO) (stream : bytes HO) it n ys o st',
+  consistent HO T -> leaves_ok HO T ->
+  run_iter response_next it = plan_of HO T ->
+  ends_within response_next it n -> (N.of_nat n < 2 ^ 64)%N ->
+  dec_run HO (mkD HO it [cv_of HO T] stream) = (ys, o, st') ->
+  is_prefix ys (items_of HO T) /\
+  (o = Finished -> ys = items_of HO T /\ stream = flat_items HO (items_of HO T) ++ d_enc HO st') /\
+  (forall e, o = Failed e ->
+     ~ is_prefix (flat_items HO (firstn (length ys + 1) (items_of HO T))) stream) /\
+  o <> Panicked /\ o <> OutOfFuel.
+Proof. exact sync_sound_run. Qed.
+Print Assumptions C01_sync_sound_run.
+
+Theorem C01_fsm_sound_run : forall HO, hash_ok HO ->
+  forall (T : ptree HO) (stream : bytes HO) it n root ys o st',
+  consistent HO T -> leaves_ok HO T ->
+  run_iter response_next it = plan_of HO T ->
+  ends_within response_next it n -> (N.of_nat n < 2 ^ 64)%N ->
+  rd_run HO (mkR HO it [cv_of HO T] stream root) = (ys, o, st') ->
+  is_prefix ys (items_of HO T) /\
+  (o = Finished -> ys = items_of HO T /\ stream = flat_items HO (items_of HO T) ++ Fsm.r_enc HO st') /\
+  (forall e, o = Failed e ->
+     ~ is_prefix (flat_items HO (firstn (length ys + 1) (items_of HO T))) stream) /\
+  o <> Panicked /\ o <> OutOfFuel.
+Proof. exact fsm_sound_run. Qed.
+Print Assumptions C01_fsm_sound_run.
+
+(* ---- Part 2(c): completeness over a plan tree (C02_complete_over_tree) ---- *)
+Theorem C01_complete : forall HO, hash_ok HO ->
+  forall (T : ptree HO) (rest : bytes HO), consistent HO T -> leaves_ok HO T ->
+  let stream := flat_items HO (items_of HO T) ++ rest in
+  let r1 := dec_items_sync HO (plan_of HO T) [cv_of HO T] stream in
+  let r2 := dec_items_fsm HO (plan_of HO T) [cv_of HO T] stream in
+  (r_items HO r1 = items_of HO T /\ r_outcome HO r1 = Finished /\ r_enc HO r1 = rest) /\
+  (r_items HO r2 = items_of HO T /\ r_outcome HO r2 = Finished /\ r_enc HO r2 = rest).
+Proof. exact both_complete. Qed.
+Print Assumptions C01_complete.
+
+(* ---- Part 2(d): decode_ranges writes / saves exactly what the decoder yields ---- *)
+Theorem C01_decode_ranges_sound : forall HO n encoded q target ob ys o stf,
+  ends_within response_next (response_new (ob_tree ob) (truncate_ranges q (tsize (ob_tree ob)))) n ->
+  (N.of_nat n < 2 ^ 64)%N ->
+  dec_run HO (dec_new HO (ob_root ob) (ob_tree ob) encoded q) = (ys, o, stf) ->
+  let a := apply_items HO ys target ob in
+  exists st', decode_ranges HO encoded q target ob =
+              (ranges_result (a_res HO a) o, a_target HO a, a_ob HO a, st').
+Proof. exact decode_ranges_sound. Qed.
+Print Assumptions C01_decode_ranges_sound.
+
+Theorem C01_decode_ranges_fsm_sound : forall HO n encoded q target ob ys o stf,
+  ends_within response_next (response_new (ob_tree ob) (truncate_ranges_owned q (tsize (ob_tree ob)))) n ->
+  (N.of_nat n < 2 ^ 64)%N ->
+  rd_run HO (rd_new HO (ob_root ob) q (ob_tree ob) encoded) = (ys, o, stf) ->
+  let a := apply_items HO ys target ob in
+  exists st', decode_ranges_fsm HO encoded q target ob =
+              (ranges_result (a_res HO a) o, a_target HO a, a_ob HO a, st').
+Proof. exact decode_ranges_fsm_sound. Qed.
+Print Assumptions C01_decode_ranges_fsm_sound.
+
+(* apply_items: the fold over the yielded items *)
+Theorem C01_apply_items_fold : forall HO (target : bytes HO) (ob : outboard HO),
+  apply_items HO [] target ob = (SOk, target, ob) /\
+  (forall off d ys, apply_items HO (ILeaf off d :: ys) target ob
+                    = apply_items HO ys (write_at HO target off d) ob) /\
+  (forall node l r ys, apply_items HO (IParent node l r :: ys) target ob =
+     match save HO ob node l r with
+     | Ok ob' => apply_items HO ys target ob'
+     | Err k => (SErr k, target, ob)
+     | Panic => (SPanic, target, ob)
+     end).
+Proof. exact apply_items_fold. Qed.
+Print Assumptions C01_apply_items_fold.
+
+Theorem C01_ranges_result : forall sr o,
+  (ranges_result sr o = Ok tt <-> sr = SOk /\ o = Finished) /\
+  (forall e, ranges_result SOk (Failed e) = Err e) /\
+  (forall k, ranges_result (SErr k) o = Err (DIo k)).
+Proof. exact ranges_result_cases. Qed.
+Print Assumptions C01_ranges_result.
+
+(* the hash assumptions are satisfiable (free term algebra), so none of the above is vacuous *)
+Theorem C01_hash_ok_inhabited : exists HO, hash_ok HO.
+Proof. exact hash_ok_inhabited. Qed.
+Print Assumptions C01_hash_ok_inhabited.
